@@ -56,6 +56,11 @@ type viewStats struct {
 	Wrapped32  bool // some expected timestamp crossed a multiple of 2^32 relative to another
 	Ext24      bool // some written timestamp needed TimestampExtended
 	MediaFirst bool // the client's first tag is a media tag
+	// AACHeaderNotAF: an AAC tag whose SoundRate/SoundType bits are not 3/1.
+	// Annex E.4.2.1 says "for AAC: always 3" / "always 1" (players ignore the
+	// bits); the property statement does not mention them, so this is counted,
+	// not judged.
+	AACHeaderNotAF bool
 }
 
 func floorDiv(a, b int64) int64 {
@@ -223,6 +228,9 @@ func checkClient(s *Scenario, v *clientView) (*failure, viewStats) {
 			ad, err := flvparse.ParseAudio(t)
 			if err != nil {
 				return failf("audio-tag", "%s: tag %d: %v", v.Name, i, err), st
+			}
+			if ad.SoundRate != 3 || ad.SoundType != 1 {
+				st.AACHeaderNotAF = true
 			}
 			if ad.SoundFormat != flvparse.SoundFormatAAC || ad.AACPacketType != flvparse.AACRaw {
 				return failf("audio-tag", "%s: tag %d: sound format %d packet type %d, want 10 / 1 (raw)", v.Name, i, ad.SoundFormat, ad.AACPacketType), st
